@@ -181,25 +181,67 @@ def dtype_class(rep, assigned):
 # ------------------------------------------------------------------------------------------
 # the state check
 # ------------------------------------------------------------------------------------------
+def touch(rep, model, cfg, mats):
+    """The op ["eval"]: read the representation the way a user does between two assignments -
+    rep[w] for all words of length <= cfg["Le"] over the current letters (inverse letters
+    included), elements(words), and derived representations built and evaluated.  Nothing is
+    compared here (the state reached by the prefix ending in this op is a state of its own and is
+    compared there); the point is that whatever the library remembers about these reads must not
+    survive a later assignment."""
+    simple = cfg["names"] == "simple"
+    letters = model.letters()
+    words = list(R.all_words(letters, cfg.get("Le", 3)))
+    with warnings.catch_warnings():
+        warnings.simplefilter("ignore")
+        evaluate(rep, words, simple)
+        rep.elements(["".join(w) for w in words] if simple else [list(w) for w in words])
+        short = [w for w in words if len(w) <= 2]
+        C = mats[1] if cfg["alpha"] == "gl" else mats[3]
+        for d in (rep.conjugate(C.copy()), rep.dual(), type(rep)(rep)):
+            evaluate(d, short, simple)
+    return len(words) + 1 + 3 * (len(short) + 1)
+
+
 def build(hist):
-    """Execute a history on a fresh real Representation and on the model."""
+    """Execute a history on a fresh real Representation and on the model.  Ops: ["set", g, k]
+    (rep[g] = alphabet[k]) and ["eval"] (`touch`: reads only, the model does not move).  Returns
+    also the list of model snapshots taken at the eval ops (the hidden-state part of the key)."""
     from geometry_tools.representation import Representation
     cfg = hist[0][1]
     mats = alphabet(cfg["alpha"], cfg["dim"])
     rep = Representation()
     model = R.RepModel()
     assigned = {}
-    for op in hist[1:]:
+    snaps = []
+    ntouch = 0
+    for i, op in enumerate(hist[1:]):
+        if op[0] == "eval":
+            snaps.append("%d:%s:%s" % (i, model.key(), np.dtype(rep.dtype)))
+            ntouch += touch(rep, model, cfg, mats)
+            continue
         _, g, k = op
         rep[g] = mats[k].copy()
         model.assign(g, mats[k].copy())
         assigned[g] = mats[k]
         assigned.pop(R.inv_name(g), None)
-    return rep, model, cfg, mats, assigned
+    return rep, model, cfg, mats, assigned, snaps, ntouch
 
 
-def state_ops(cfg):
-    return [["set", g, k] for g in NAMES[cfg["names"]] for k in cfg.get("mats", range(NMAT))]
+def state_ops(cfg, hist=()):
+    sets = [["set", g, k] for g in NAMES[cfg["names"]] for k in cfg.get("mats", range(NMAT))]
+    if "maxset" not in cfg:
+        return sets
+    # histories with reads in between: at most cfg["maxset"] assignments and cfg["maxeval"] eval
+    # ops; an eval op only directly after an assignment and only when an assignment may still
+    # follow (a trailing read is what the state check itself does)
+    nset = sum(1 for op in hist[1:] if op[0] == "set")
+    nev = sum(1 for op in hist[1:] if op[0] == "eval")
+    # (histories without any read belong to the plain sections: an assignment that would complete such
+    # a history is not enabled)
+    ops = sets if nset < cfg["maxset"] and (nev >= 1 or nset + 1 < cfg["maxset"]) else []
+    if 1 <= nset < cfg["maxset"] and nev < cfg["maxeval"] and hist[-1][0] == "set":
+        ops = ops + [["eval"]]
+    return ops
 
 
 def check_state(hist):
@@ -208,18 +250,26 @@ def check_state(hist):
     from geometry_tools.representation import Representation
     from geometry_tools.lie import hom
 
-    rep, model, cfg, mats, assigned = build(hist)
+    rep, model, cfg, mats, assigned, snaps, ntouch = build(hist)
     v = []
     n, L, simple = cfg["dim"], cfg["L"], cfg["names"] == "simple"
-    key = repr(sorted(cfg.items())) + "|" + model.key() + "|" + str(np.dtype(rep.dtype))
-    ops = state_ops(cfg)
+    # a state reached by an eval op is compared lightly (word values, laws, elements() on the words
+    # the op has just read: a second read must give the same, correct, values); the full comparison
+    # is for states reached by an assignment
+    light = len(hist) > 1 and hist[-1][0] == "eval"
+    if light:
+        L = cfg.get("Le", 3)
+    # histories that differ in where they read and what the table was at that moment are NOT merged:
+    # what the library remembers from a read is hidden state
+    key = repr(sorted(cfg.items())) + "|" + model.key() + "|" + str(np.dtype(rep.dtype)) + "|" + "|".join(snaps)
+    ops = state_ops(cfg, hist)
     if not model.gens:
         ok = list(rep.generators) == [] and rep.dim is None
         if not ok:
             v.append({"key": "state/empty", "msg": "fresh representation has generators %r" % (list(rep.generators),)})
         return {"v": v, "key": key, "ops": ops, "t": 1, "o": "empty", "nt": False}
 
-    ncalls = len(hist)
+    ncalls = len(hist) + ntouch
     # ---- the generator table itself
     if list(rep.generators.keys()) != model.letters():
         v.append({"key": "table/names", "msg": "generator names %r, model %r" % (list(rep.generators), model.letters())})
@@ -305,6 +355,9 @@ def check_state(hist):
             ncalls += len(star)
             if not np.array_equal(stack(star, n), V[1:]):
                 v.append({"key": "eval/star-strings", "msg": "element('x*y', parse_simple=False) differs from rep[['x','y']]"})
+    if light:
+        o = "read|%s|%s|%d|%s" % (cls, str(T.dtype), len(letters), ",".join(sorted({x["key"].split("/")[1] for x in v})))
+        return {"v": v, "key": key, "ops": ops, "t": ncalls, "o": o + "|" + str(zlib.crc32(key.encode()) % 997), "nt": True}
 
     # ---- derived representations
     def derived(name, make, expected, exact_ok=False, unwrap=True, cls_in_key=False, wordsel=None):
@@ -776,6 +829,8 @@ def run(ctx):
                 "explored breadth-first on real Representation objects vs a dict model, de-duplicated on the ordered "
                 "generator table and the representation dtype; in every state all words of length <= L over the assigned "
                 "letters and inverses are evaluated on the representation and on every derived representation; "
+                "section histories-reads adds the op 'eval' (read words, elements(), derived representations) between "
+                "assignments on the same object, states that differ in where they were read are kept apart; "
                 "a state is non-trivial when it has at least one generator")
     ctx.assume("generator matrices are invertible (alphabets: |det| >= 0.2, condition number < 60)")
     ctx.assume("multi-character names are evaluated through lists and through '*'-strings with element(w, parse_simple=False); "
@@ -826,6 +881,35 @@ def run(ctx):
         ctx.bfs("histories-depth3", "checks.c05:case_state", roots, depth=3,
                 domains={"dimensions": [1, 2, 3], "matrix subsets": "simple names {0,2,3,5}, long names {0,3,5}, O(2,1) {0,1,3}",
                          "word length": "4 (simple names), 3 (long names, O(2,1))", "roots": len(roots)}, chunk=16)
+    if want("histories-reads"):
+        # assignments with READS in between: set ... eval ... set on one object (what a memo of word
+        # images, of inverses, of the dtype ... must survive)
+        roots = []
+        ms, me = (2, 1) if q else (3, 2)
+        for n in ([1, 2, 3] if q else [1, 2, 3, 4]):
+            roots.append(root("gl", n, "simple", 3, ALL if (q and n == 2) else [0, 3, 5] if q else [1, 5],
+                              maxset=ms, maxeval=me, Le=3 if q else 2, Lfox=2))
+        roots.append(root("gl", 2, "long", 3, [0, 5] if q else [2, 4], maxset=ms, maxeval=me, Le=3 if q else 2))
+        roots.append(root("lorentz", 3, "simple", 3, [0, 1, 3] if q else [0, 3], maxset=ms, maxeval=me, Le=3 if q else 2, Lfox=2))
+        if not q:
+            for n in [2, 3]:
+                roots.append(root("gl", n, "simple", 4, ALL, maxset=2, maxeval=1, Le=3, rich=True))
+            roots.append(root("gl", 3, "long", 4, ALL, maxset=2, maxeval=1, Le=3))
+            roots.append(root("lorentz", 4, "simple", 4, ALL, maxset=2, maxeval=1, Le=3))
+        ctx.bfs("histories-reads", "checks.c05:case_state", roots, depth=ms + me,
+                domains={"ops": "['set', g, k] as in `histories`; ['eval'] = rep[w] for all words of length <= Le over the "
+                                "current letters and inverses, elements(words), conjugate / dual / copy built and evaluated "
+                                "(words of length <= 2)",
+                         "shape of a history": "at most %d assignments and %d eval ops, an eval op only directly after an "
+                                               "assignment and before another one; histories without eval op are those of "
+                                               "`histories`" % (ms, me),
+                         "state key": "generator table, dtype AND the table at every eval op (position in the history "
+                                      "included): histories that read at different moments are not merged",
+                         "word length": "final state 3 (4 for the full-alphabet roots of the thorough tier); eval op and the "
+                                        "state reached by it: Le = %d" % (3 if q else 2),
+                         "matrix subsets": "quick: {0,3,5} (all six for n = 2), long names {0,5}, O(2,1) {0,1,3}; thorough "
+                                           "depth 3+2: {1,5}, long {2,4}, O(2,1) {0,3}; depth 2+1: all six",
+                         "roots": len(roots)}, chunk=8)
     if want("long-words") and not q:
         roots = []
         for n in [1, 2, 3]:
